@@ -97,7 +97,7 @@ DEFAULT_CFG = dict(
     prop='C06', phases=3, max_clients=3, ops_per_client=2, between=2, actor_ops=3, faults=False, net=False,
     content='mixed', max_steps=40000, max_pkgs=2, max_total=4, ntargets=3,
     mix_client=dict(update=6, load=4, load_ref=2, cadd=1, crecord=1, ctargets=1),
-    mix_between=dict(remove=2, consume=1, reset=1, bump=3, reopen=1, purge=0, crash=0, trace=1, search=1, check=1),
+    mix_between=dict(remove=2, consume=1, reset=1, bump=3, reopen=1, purge=0, crash=0, trace=1, search=1, check=1, pad=1),
     mix_actor=dict(add=1, record=1, next=1, versions=1, trace=1, search=1, facet=1, fesearch=1, check=2),
     kill=(0, 1), reset_conn=(0, 1), crash_mid=(0, 1), real_hash=(1, 50), stop_on=None, nonfatal=(),
     enum=0, exdev=False, enospc=(0, 1), msv=(1, 6), max_images=160, mix_enum=dict(update=1), enum_clients=2, enum_ops=2, real_kill=(0, 1), calibrate=0, big=(1, 10),
@@ -199,6 +199,15 @@ class StoreWorld:
             t = pool.pop(ch.choose('gen.target', len(pool)))
             dawgie.db.add(t)
             self.op(f'pl: add target {t}')
+        if cfg.get('mix_between', {}).get('pad') and ch.flip('gen.pad_first', 1, 2):
+            # another engine was there first: this engine's first task and algorithm get id 1, not 0
+            from dawgie.db.shelve import util
+            from dawgie.db.shelve.state import DBI
+
+            dbi = DBI()
+            util.append('zzpadtask', dbi.tables.task, dbi.indices.task)
+            util.append('zzpad0', dbi.tables.alg, dbi.indices.alg, 0, util.LocalVersion('1.0.0'))
+            self.probes['catalogue_padded_at_start'] += 1
         self.sim.after_step.append(self.after_step)
 
     def restore_io(self):
@@ -405,9 +414,12 @@ class StoreWorld:
         return f'{full}@{sm.vstr(a.ver)}({svs})'
 
     def client_main(self, cl):
-        import dawgie.db
+        # a worker is a process of its own: what dawgie.db.reopen()/close() do to *module* state happens over there, not
+        # in the pipeline's copy of the module.  Here both live in one interpreter, so the worker side goes straight to
+        # the (thread-aware) DBI calls those two functions consist of
+        from dawgie.db.shelve.state import DBI
 
-        dawgie.db.reopen()
+        DBI().reopen()
         for op in cl.ops:
             cl.cur = op
             self.op(f'{cl.name}: {self.describe(op)}')
@@ -422,7 +434,7 @@ class StoreWorld:
             cl.cur = None
             if self.stopped:
                 break
-        dawgie.db.close()
+        DBI().close()
 
     def on_client_exception(self, cl, op, e):
         import traceback
@@ -587,10 +599,39 @@ class StoreWorld:
         bot, alg, target = self.make(aspec, op['run'], op['target'])
         ds = self.connect(aspec, alg, bot, target)
         refs = alg.traits() if aspec.kind == 'analysis' else alg.previous()
+        aimed = self.ch.flip('op.store_between_loads', 1, 2)
+        loaded_before = False
+        if aimed and self.ch.flip('op.own_load_first', 1, 2):
+            # Task.do-like use of one dataset: its own values first, then every parent by reference
+            pristine = {(sv.name(), vn): sv[vn] for sv in alg.state_vectors() for vn in sv.keys()}
+            idents = self.idents_of(aspec, alg)
+            cl.snap = None
+            cl.want_snap = lambda i=idents: self.expectation(i, target, op['run'])
+            ds.load()
+            self.check_load(op, alg, target, pristine, idents, cl.snap, 'own')
+            loaded_before = True
         for ref in refs:
             parent = ref.impl
             pspec = parent.a
             ptarget = ALL if pspec.kind == 'analysis' else target
+            if aimed and loaded_before and core.current_thread() is not None:
+                # between two loads of this dataset another worker stores a NEW entry of the parent that is loaded next
+                # (the requested run, or a higher one): for the coming load that store is "earlier"
+                up = self.gen_client_op(force='update')
+                up['alg'], up['target'], up['msv'] = pspec.full, ptarget, False
+                up['run'] = op['run'] if self.ch.flip('op.aimed_same_run', 1, 2) else max(RUN_POOL) + 1 + self.ch.choose('op.aimed_run', 3)
+                up['contents'], up['labels'] = {}, {}
+                for s_, _sv, vals in pspec.svs:
+                    for v_, _vv in vals:
+                        c, lab = self.draw_content()
+                        up['contents'][(s_, v_)] = c
+                        up['labels'][f'{s_}.{v_}'] = lab
+                helper = Client(self, len(self.clients), f'{cl.name}.w', [up])
+                self.clients.append(helper)
+                helper.thread = self.sim.spawn(helper.name, lambda h=helper: self.client_main(h))
+                core.current_thread().park(pred=lambda h=helper: not h.alive, label='client.between_loads.foreign_store')
+                self.probes['foreign_store_between_two_loads'] += 1
+            loaded_before = True
             pristine = {(sv.name(), vn): sv[vn] for sv in parent.state_vectors() for vn in sv.keys()}
             if any(type(v) is not aegen.GenValue or '_version_seal_' in v.__dict__ for v in pristine.values()):
                 continue  # the same parent was already loaded through another reference of this algorithm
@@ -647,6 +688,20 @@ class StoreWorld:
         if cl is not None:
             cl.snap_pre, cl.window_alts = None, {}
         self.loads_checked += 1
+        # the algorithm works on what it loaded, in place: that is its own copy and nobody else's business
+        if self.ch.flip('op.scribble', 1, 3):
+            for sv in alg.state_vectors():
+                for vn in sv.keys():
+                    v = sv[vn]
+                    if v is not pristine[(sv.name(), vn)] and type(v) is aegen.GenValue:
+                        c = getattr(v, 'content', None)
+                        if isinstance(c, list):
+                            c.append('scribbled')
+                        elif isinstance(c, dict):
+                            c['scribbled'] = self.loads_checked
+                        else:
+                            v.content = ('scribbled', self.loads_checked)
+                        self.probes['loaded_value_modified_in_place'] += 1
 
     def classify_load(self, me, target, runid, got, pristine):
         """which other entry of the model the returned data belongs to (signature of a C06 violation)"""
@@ -694,7 +749,7 @@ class StoreWorld:
             self.probes['targets_repeated'] += 1  # observed only; the table bijection is judged by check_catalogue
 
     # -- phases ----------------------------------------------------------------
-    def phase(self, ops=None, mix=None, max_clients=None, msv=True, nops=None):
+    def phase(self, ops=None, mix=None, max_clients=None, msv=True, nops=None, quiet=False):
         ch, cfg = self.ch, self.cfg
         self.phase_no += 1
         self.clients = []
@@ -704,6 +759,29 @@ class StoreWorld:
             for i in range(n):
                 k = 1 + ch.choose('ph.nops', nops or cfg['ops_per_client'])
                 ops.append([self.gen_client_op(mix=mix) for _ in range(k)])
+            if getattr(self, 'aim_sibling', False):
+                # aimed: a sibling of the algorithm with catalogue id 1 is released in a new version (new row: id 10..19)
+                # and stores next to it, same run, same target
+                self.aim_sibling = False
+                rows, _ = self.catalogue().resolve()
+                ones = [r for r in rows if r['ids'][3] == 1 and f"{r['task']}.{r['alg']}" in self.spec.by]
+                if ones:
+                    r = ones[ch.choose('ph.aim_row', len(ones))]
+                    me = self.spec.by[f"{r['task']}.{r['alg']}"]
+                    sibs = [x for x in self.spec.algs if x.pkg == me.pkg and x.name != me.name and x.kind == me.kind]
+                    if sibs:
+                        sib = sibs[ch.choose('ph.aim_sib', len(sibs))]
+                        sib.ver = (9, self.phase_no, len(rows) % 7)
+                        up = self.gen_client_op(force='update')
+                        up['alg'], up['target'], up['run'], up['msv'] = sib.full, r['target'], r['run'], False
+                        up['contents'], up['labels'] = {}, {}
+                        for s_, _sv, vals in sib.svs:
+                            for v_, _vv in vals:
+                                c, lab = self.draw_content()
+                                up['contents'][(s_, v_)] = c
+                                up['labels'][f'{s_}.{v_}'] = lab
+                        ops[0].insert(0, up)
+                        self.probes['aimed_sibling_store_with_prefix_related_id'] += 1
             if not msv:
                 for lst in ops:
                     for o in lst:
@@ -717,7 +795,7 @@ class StoreWorld:
             self.clients.append(Client(self, i, f'c{self.phase_no}.{i}', lst))
         self.exclusion_suspect = False
         self.plan_faults()
-        self.actor = PipelineActor(self, ch.choose('ph.nactor', cfg['actor_ops'] + 1))
+        self.actor = PipelineActor(self, 0 if quiet else ch.choose('ph.nactor', cfg['actor_ops'] + 1))
         self.sim.actors[:] = [self.actor]
         for cl in self.clients:
             cl.thread = self.sim.spawn(cl.name, lambda cl=cl: self.client_main(cl))
@@ -935,11 +1013,72 @@ class StoreWorld:
         self.probes['version_bump'] += 1
         self.op(f'software update: {what} is now version {sm.vstr(ver)}')
 
+    def b_pad(self):
+        """years pass: other engines record algorithms of their own; the catalogue ids of this engine's later rows
+        cross a power of ten (row 1 next to rows 10..19: ids that are decimal prefixes of one another)"""
+        from dawgie.db.shelve import util
+        from dawgie.db.shelve.state import DBI
+
+        dbi = DBI()
+        if not self.db_open or not len(dbi.indices.task):
+            return
+        n = len(dbi.indices.alg)
+        goal = 10 if n < 10 else (100 if 20 <= n < 100 and self.ch.flip('bt.pad_100', 1, 4) else n)
+        if n == 0:
+            goal = 1  # so that the first algorithm of this engine gets id 1, not 0
+        added = 0
+        while len(dbi.indices.alg) < goal:
+            util.append(f'zzpad{len(dbi.indices.alg)}', dbi.tables.alg, dbi.indices.alg, 0, util.LocalVersion('1.0.0'))
+            added += 1
+        if added and len(dbi.indices.alg) == 10:
+            self.aim_sibling = True  # the next new algorithm row gets an id 10..19
+        if added:
+            self.probes['catalogue_padded'] += 1
+            self.op(f'pl: {added} algorithms of other engines recorded (alg table now has {len(dbi.indices.alg)} rows)')
+
     def catalogue(self):
         from dawgie.db.shelve.state import DBI
 
         dbi = DBI()
         return sm.Catalogue({n: dict(getattr(dbi.tables, n)) for n in env.TABLES})
+
+    def b_replace(self):
+        """aimed history: the pipeline asks for the next run id, then every entry one run of an algorithm left on a
+        target is removed, and the algorithm stores the same number of values again under a run id of its own that is
+        higher than anything stored (a job carrying its run id) - the primary table is as large as before"""
+        import dawgie.db
+
+        cat = self.catalogue()
+        rows, _bad = cat.resolve()
+        rows = [r for r in rows if f"{r['task']}.{r['alg']}" in self.spec.by and r['sv'] != '__metric__']
+        if not rows:
+            return
+        r = rows[self.ch.choose('bt.rp_row', len(rows))]
+        a = self.spec.by[f"{r['task']}.{r['alg']}"]
+        mine = [x for x in rows if (x['run'], x['target'], x['task'], x['alg']) == (r['run'], r['target'], r['task'], r['alg'])]
+        want = {(s_, v_) for s_, _sv, vals in a.svs for v_, _vv in vals}
+        if {(x['sv'], x['val']) for x in mine} != want or len(mine) != len(want):
+            return  # several versions or a partial set: the sizes would not match
+        self.check_catalogue('next')
+        self.quiet_next = True  # from here to the end of the store nobody asks for the next run id
+        for x in mine:
+            names = cat.names_of(x)
+            self.do_remove(names, lambda n=names: dawgie.db.remove(*n), f'remove{names}')
+            if self.stopped:
+                self.quiet_next = False
+                return
+        hi = max(x['run'] for x in rows)
+        up = self.gen_client_op(force='update')
+        up['alg'], up['target'], up['run'], up['msv'] = a.full, r['target'], hi + 1 + self.ch.choose('bt.rp_run', 3), False
+        up['contents'], up['labels'] = {}, {}
+        for s_, v_ in sorted(want):
+            c, lab = self.draw_content()
+            up['contents'][(s_, v_)] = c
+            up['labels'][f'{s_}.{v_}'] = lab
+        self.probes['aimed_remove_then_store_same_size'] += 1
+        self.quiet_next = False
+        self.phase(ops=[[up]], quiet=True)  # that job alone, nobody else asking anything meanwhile
+        self.check_catalogue('next')
 
     def b_remove(self):
         """dawgie.db.remove addressed by exact names: C08 clause 2"""
@@ -1033,8 +1172,14 @@ class StoreWorld:
         if not rows:
             return
         r = rows[ch.choose('bt.rs_row', len(rows))]
-        crowded = [x for x in rows if any(collides(x['alg'], y['alg']) and (y['run'], y['target'], y['task']) == (x['run'], x['target'], x['task'])
+        def idpfx(x, y):  # catalogue ids one of which is a decimal prefix of the other (1 and 10..19)
+            a, b = str(x['ids'][3]), str(y['ids'][3])
+            return a != b and (a.startswith(b) or b.startswith(a))
+
+        crowded = [x for x in rows if any((collides(x['alg'], y['alg']) or idpfx(x, y)) and (y['run'], y['target'], y['task']) == (x['run'], x['target'], x['task'])
                                           for y in rows)]
+        if any(idpfx(x, y) and (y['run'], y['target'], y['task']) == (x['run'], x['target'], x['task']) for x in rows for y in rows):
+            self.probes['reset_with_prefix_related_ids_in_one_run'] += 1
         if crowded and ch.flip('bt.rs_crowded', 2, 3):
             # a run/target/task in which a prefix-related sibling algorithm also has entries
             r = crowded[ch.choose('bt.rs_crow', len(crowded))]
@@ -1217,6 +1362,11 @@ class StoreWorld:
         rows, bad = cat.resolve()
         for kind, ks, msg in bad:
             self.violate('C08', 'entry_' + kind, 'chain', f'[{why}] primary entry {ks}: {msg}')
+        # next() is asked by the pipeline now and then, not after every single operation: an observer that asks each
+        # time would itself keep any state next() may hold fresh (observation must not perturb)
+        if why != 'next' and (getattr(self, 'quiet_next', False) or not self.ch.flip('chk.next', 1, 4)):
+            self.probes['catalogue_checked'] += 1
+            return
         try:
             nxt = dawgie.db.next()
         except Exception as e:  # noqa
